@@ -60,6 +60,19 @@ def run(ctx):
     bad = vlib.validate_trace(ctx, "Slip10Trace", g + t)
     for e in vlib.reproduce(ctx, binp, bad, history=g + t):
         ctx.bad.append(dict(event=slim(e), reason="real slip10 derivation differs from the Slip10 specification"))
+    # the ECDSA curves' own key operations at the edges the HMAC never produces in a test (candidates 0, n, [n,p), sums that
+    # pass the group order by a little): NewPrivateKey and Shift of pkg/slip10/elliptic, judged by ECTrace with BigNat
+    from checks import ec_common as ec
+    eb = ec.elliptic_driver(ctx)
+    de = ctx.rundir("drv_elliptic")
+    vlib.run_driver(ctx, eb, "record", de + "/t.ndjson", n=24 if q else 400, extra_env={"VERIF_PAR_MS": "0"})
+    ee = [e for e in vlib.read_ndjson(de + "/t.ndjson") if e["op"] in ("shift.new", "shift.b", "shift.derive")]
+    for e in ee:
+        e["t"] = 3
+        e["in"]["copy"] = "elliptic"
+    vlib.note_events(ctx, ee, keep=1)
+    for e in vlib.reproduce(ctx, eb, vlib.validate_trace(ctx, "ECTrace", ee, label="T_elliptic_keys"), history=ee):
+        ctx.bad.append(dict(event=ec.slim(e), reason="key validity / shift of the ECDSA curves differs from what SLIP-0010 prescribes (0 < k < n, (k + I_L) mod n, invalid if zero)"))
     return vlib.finish(ctx, LEVEL, RULE, ASSUME, matchers=MATCHERS,
                        technique="TLA+ spec Slip10: TLC model of the retry procedure; all retry/permanent-error scripts driven through the real code by a scripted plug-in curve; real-curve traces validated with HMAC/point facts and BigNat")
 
